@@ -106,7 +106,7 @@ def rewrite(rng, rec, lines):
             return None
     elif kind == "empty-form":
         if role == "empty":
-            op = Line(ind + body[:-2].rstrip() + ">", **dict(l.info, role="open"))
+            op = Line(ind + body[:-2].rstrip() + (" >" if body[:-2].rstrip().endswith("/") else ">"), **dict(l.info, role="open"))
             cl = Line(ind + "</" + l.info["type"] + ">", **dict(l.info, role="close"))
             lines[i:i + 1] = [op, cl]
         elif role == "open" and i + 1 < len(lines) and lines[i + 1].info["role"] == "close":
@@ -381,7 +381,7 @@ def run(chk):
         rec = sc.recs[sid]
         vocab = [Line(v, role="fault", cont="") for v in schemas.vocabulary(rec, 40)]
         for b in range(per):
-            lines = textgen.Gen(rng, rec).text()
+            lines = textgen.Gen(rng, rec, slash_names=True).text()
             if rng.random() < 0.35:
                 lines = with_defines(rng, lines)
             if rng.random() < 0.5:
